@@ -248,17 +248,17 @@ func headerViolations(b []byte, server, pmd bool, limit int) map[int]bool {
 // ---------------------------------------------------------------------------------------------
 
 type inObs struct {
-	Events    []evRec
-	Kind      int // 0 eof, 1 failed, 2 peer close, 9 panic, 8 hang
-	A, C      int
-	B         []byte
-	CloseErr  string
-	Panic     string
-	Closes    int // OnClose count
-	Opens     int
+	Events          []evRec
+	Kind            int // 0 eof, 1 failed, 2 peer close, 9 panic, 8 hang
+	A, C            int
+	B               []byte
+	CloseErr        string
+	Panic           string
+	Closes          int // OnClose count
+	Opens           int
 	TransportClosed bool
-	WireAfter []byte
-	PeakAlloc uint64
+	WireAfter       []byte
+	PeakAlloc       uint64
 }
 
 func cutChunks(c *Ctx, b []byte, mode int) [][]byte {
